@@ -73,12 +73,23 @@ impl Property for C16 {
         "C16"
     }
     fn rule(&self) -> &'static str {
-        "Valid shaders (uniform struct, constant, helper, vertex + fragment entry, optional non-ASCII identifiers) with 1-6 injected line / block comments carrying quotes, backslashes and escape look-alikes, braces, raw-string delimiters, TAB, NUL, BEL/ESC/DEL, CR LF / LF LF line endings, U+2028/2029/0085, accented, CJK, emoji ZWJ sequences, bidi overrides, zero-width, non-BMP up to U+10FFFF, leading / trailing blank lines; embedded variant with formatter off and on, include variant with 10 path strings (spaces, backslashes, quotes, braces, non-ASCII, empty); oracle = the input itself: syn-parsed `pub const SOURCE: &str` literal value == input bytes (embedded) or `include_str!(path)` with exactly the path (include), create_shader_module wraps SOURCE unchanged, and the include variant differs from the embedded one in the SOURCE item only."
+        "Valid shaders (uniform struct, constant, helper, vertex + fragment entry, optional non-ASCII identifiers) with 1-6 injected line / block comments carrying quotes, backslashes and escape look-alikes, braces, raw-string delimiters, TAB, NUL, BEL/ESC/DEL, CR LF / LF LF line endings, U+2028/2029/0085, accented, CJK, emoji ZWJ sequences, bidi overrides, zero-width, non-BMP up to U+10FFFF, leading / trailing blank lines; 9 sources of 140 KB whose multi-byte characters straddle every power-of-two byte offset; embedded variant with formatter off and on, include variant with 10 path strings (spaces, backslashes, quotes, braces, non-ASCII, empty); oracle = the input itself: syn-parsed `pub const SOURCE: &str` literal value == input bytes (embedded) or `include_str!(path)` with exactly the path (include), create_shader_module wraps SOURCE unchanged, and the include variant differs from the embedded one in the SOURCE item only."
     }
 
     fn cases(&self, seed: u64, tier: Tier) -> Vec<Case> {
         let n = if tier == Tier::Quick { 160 } else { 1500 };
         let mut out = vec![];
+        // large sources: a block comment of 2-, 3- and 4-byte characters long enough that, for each of the three byte offsets,
+        // a multi-byte character straddles every power-of-two offset up to 128 KiB (chunked / buffered handling of the text)
+        for (k, ch) in ["\u{e9}", "\u{4e2d}", "\u{1f600}"].iter().enumerate() {
+            for off in 0..(k + 2) {
+                let mut src = String::from("/*");
+                src.push_str(&"x".repeat(off));
+                while src.len() < 140_000 { src.push_str(ch); }
+                src.push_str("*/\n@fragment\nfn fs_main() -> @location(0) vec4<f32> { return vec4<f32>(1.0); }\n");
+                out.push(Case::new(format!("large{k}/offset{off}"), src, Params { opts: WriteOptions::default(), include: None, extra: vec![] }));
+            }
+        }
         for i in 0..n {
             let src = source(seed, i);
             if naga_parse(&src).is_err() {
